@@ -16,7 +16,7 @@ PROP = 'C19'
 MODEL_MODULES = ['TenpyModel.Util.J', 'TenpyModel.C19.Order', 'TenpyModel.C19.Lattice', 'TenpyModel.C19.Couplings',
                  'TenpyModel.C19.Variants']
 PROPS_MODULES = ['TenpyModel.C19.PropsOrder', 'TenpyModel.C19.PropsIndex', 'TenpyModel.C19.PropsCouplings',
-                 'TenpyModel.C19.PropsMulti', 'TenpyModel.C19.PropsVariants', 'TenpyModel.C19.PropsPairs']
+                 'TenpyModel.C19.PropsMulti', 'TenpyModel.C19.PropsVariants', 'TenpyModel.C19.PropsPairs', 'TenpyModel.C19.PropsPairsOutside']
 LEAN_MODULES = PROPS_MODULES
 LEVEL = 'proof'
 BUDGET = {'quick': 170, 'thorough': 1700}
